@@ -823,3 +823,112 @@ Proof.
         -- intros t Ht. exact Ht.
       * exact (r_nd _ _ _ HR).
 Qed.
+
+(* ---------------------------------------------------------------- reconnect() *)
+Lemma reset_char c s cl : cfg_ok c = true -> Inv c s ->
+  exists A B n, out s = A ++ B /\ Forall (fun m => o_st m = MsPublish \/ o_st m = MsQueued) B /\
+    reset_out_list c cl 0 (out s) = (map (reset1 cl) A ++ map toQ B, n).
+Proof.
+  intros Hcfg I. pose proof (max_nonneg c Hcfg) as Hmax. destruct (inv_shape _ _ I) as (C & U & Q & Sh).
+  destruct (reset_out_char c cl Hmax (out s) 0 ltac:(lia)) as (j & Hj & E & Hfull & Hle).
+  exists (firstn j (out s)), (skipn j (out s)), (0 + Z.of_nat j).
+  split; [symmetry; apply firstn_skipn|]. split; [|exact E].
+  destruct (Nat.eq_dec j (length (out s))) as [->|Hne]. { rewrite skipn_all. constructor. }
+  assert (Hlt : (j < length (out s))%nat) by lia. destruct (Hfull Hlt) as [Hpos Hge].
+  pose proof (sh_max _ _ _ _ _ Sh Hpos) as HC.
+  rewrite (sh_out _ _ _ _ _ Sh). rewrite skipn_app. rewrite (skipn_all2 C) by lia. cbn [app].
+  apply Forall_skipn. apply Forall_app; split.
+  - eapply Forall_impl; [|exact (sh_U _ _ _ _ _ Sh)]. cbn; intros; left; assumption.
+  - eapply Forall_impl; [|exact (sh_Q _ _ _ _ _ Sh)]. intros a Ha. right.
+    unfold is_queued in Ha. destruct (o_st a); try discriminate; reflexivity.
+Qed.
+
+Lemma pend_reset1 cl m : qos_okb m = true -> isPub (reset1 cl m) = true \/ is_queued (reset1 cl m) = true ->
+  o_dup (reset1 cl m) = true \/ ((isPub m = true \/ is_queued m = true) /\ o_dup (reset1 cl m) = o_dup m).
+Proof. destruct cl; mcrush. Qed.
+
+Lemma lost_quiet q : forallb quiet (flat_map lost_evs q) = true.
+Proof.
+  induction q as [|x q IH]; [reflexivity|]. cbn [flat_map]. rewrite forallb_app, IH, andb_true_r.
+  unfold lost_evs. destruct (q_pkt x) as [|m qs d t| | | |]; try reflexivity.
+  destruct ((qs =? 0) && q_info x); reflexivity.
+Qed.
+
+Lemma R_reset c s k k' A B i n sk cn :
+  cfg_ok c = true -> Inv c s -> R c s k -> out s = A ++ B ->
+  Forall (fun m => o_st m = MsPublish \/ o_st m = MsQueued) B ->
+  k2_ok k' = k2_ok k -> k2_live k' = k2_live k -> k2_h1 k' = k2_h1 k -> k2_h2 k' = k2_h2 k ->
+  k2_sent k' = k2_sent k -> k2_rec k' = k2_rec k -> k2_blk k' = false ->
+  R c (mkS (map (reset1 (clean_now c s)) A ++ map toQ B) i n (last_mid s) sk (first s) false cn (ntag s) [] false) k'.
+Proof.
+  intros Hcfg I HR Eo HB K1 K2 K3 K4 K5 K6 K7.
+  constructor; cbn [out ntag sock cack first outq blocked]; rewrite ?K1, ?K2, ?K3, ?K4, ?K5, ?K6, ?K7.
+  - exact (r_ok _ _ _ HR).
+  - rewrite (r_live _ _ _ HR), Eo, !map_app, !map_map. f_equal. apply map_ext; intros a. symmetry. apply lm_reset1.
+  - intros m' Hin. apply in_app_or in Hin as [Hin|Hin]; apply in_map_iff in Hin as (x & <- & Hx).
+    + assert (Hox : In x (out s)) by (rewrite Eo; apply in_or_app; left; exact Hx).
+      rewrite reset1_tag, (snt_reset1 _ _ (inv_qos_ok _ _ _ I Hox)). apply (r_h1 _ _ _ HR). exact Hox.
+    + assert (Hox : In x (out s)) by (rewrite Eo; apply in_or_app; right; exact Hx).
+      change (o_tag (toQ x)) with (o_tag x).
+      rewrite (snt_toQ _ (proj1 (Forall_forall _ _) HB x Hx)). apply (r_h1 _ _ _ HR). exact Hox.
+  - exact (r_h1b _ _ _ HR).
+  - exact (r_sh _ _ _ HR).
+  - intros m' Hin Hst Hz. apply in_app_or in Hin as [Hin|Hin]; apply in_map_iff in Hin as (x & <- & Hx).
+    + assert (Hox : In x (out s)) by (rewrite Eo; apply in_or_app; left; exact Hx).
+      rewrite reset1_tag in Hz.
+      destruct (pend_reset1 (clean_now c s) x (inv_qos_ok _ _ _ I Hox) Hst) as [H|[Hold Hd]]; [exact H|].
+      rewrite Hd. exact (r_pend _ _ _ HR x Hox Hold Hz).
+    + assert (Hox : In x (out s)) by (rewrite Eo; apply in_or_app; right; exact Hx).
+      change (o_tag (toQ x)) with (o_tag x) in Hz. change (o_dup (toQ x)) with (o_dup x).
+      apply (r_pend _ _ _ HR x Hox); [|exact Hz].
+      destruct (proj1 (Forall_forall _ _) HB x Hx) as [E|E]; [left; unfold isPub | right; unfold is_queued]; rewrite E; reflexivity.
+  - intros Hc t Ht. destruct (clean_now c s) eqn:Ecl.
+    + unfold clean_now in Ecl. destruct (c_clean c =? 0) eqn:E0; [discriminate|].
+      destruct (c_clean c =? 1) eqn:E1; [lia|].
+      assert (H2 : c_clean c = 2) by (destruct (cfg_clean c Hcfg) as [?|[?|?]]; lia).
+      rewrite (r_clean _ _ _ HR H2 Ecl) in Ht. discriminate.
+    + destruct (r_rec _ _ _ HR Hc t Ht) as (m & Hin & Et & Hq & Hr & _).
+      rewrite Eo in Hin. apply in_app_or in Hin as [Hin|Hin].
+      * destruct (rec_reset1 m Hq Hr) as [H1 H2].
+        exists (reset1 false m). split; [apply in_or_app; left; apply in_map; exact Hin|].
+        rewrite reset1_tag, reset1_qos. repeat split; intros; assumption.
+      * exfalso. apply (rec_nPQ m Hr). exact (proj1 (Forall_forall _ _) HB m Hin).
+  - intros t Ht. pose proof (r_recl _ _ _ HR t Ht) as H. rewrite Eo in H.
+    rewrite tags_app in *. unfold tags in *. rewrite !map_map. 
+    rewrite (map_ext (fun x => o_tag (reset1 (clean_now c s) x)) o_tag) by (intros; apply reset1_tag). exact H.
+  - discriminate.
+  - exact (r_clean _ _ _ HR).
+  - constructor.
+  - constructor.
+  - intros _. reflexivity.
+Qed.
+
+Lemma step_reconnect c s k ok : cfg_ok c = true -> Inv c s -> R c s k ->
+  R c (fst (do_reconnect c s ok)) (k02_op (pers c) k (snd (do_reconnect c s ok))).
+Proof.
+  intros Hcfg I HR. destruct (reset_char c s (clean_now c s) Hcfg I) as (A & B & n & Eo & HB & E).
+  unfold do_reconnect. rewrite E. destruct ok; cbn [fst snd].
+  - rewrite k02_op_plain.
+    2:{ cbn [existsb is_connack0 orb]. rewrite existsb_app. destruct (quiet_fold (pers c) _ k (lost_quiet (outq s))) as [_ ->]. reflexivity. }
+    cbn [fold_left]. rewrite (quiet_ev _ _ Reconn eq_refl), fold_left_app.
+    rewrite (proj1 (quiet_fold (pers c) _ k (lost_quiet (outq s)))). cbn [fold_left k02_ev].
+    apply (R_reset c s k); try assumption; reflexivity.
+  - rewrite k02_op_plain.
+    2:{ cbn [existsb is_connack0 orb]. rewrite existsb_app. destruct (quiet_fold (pers c) _ k (lost_quiet (outq s))) as [_ ->]. reflexivity. }
+    cbn [fold_left]. rewrite (quiet_ev _ _ Reconn eq_refl), fold_left_app.
+    rewrite (proj1 (quiet_fold (pers c) _ k (lost_quiet (outq s)))). cbn [fold_left k02_ev].
+    (* no socket: the blocked flag of the checker is irrelevant *)
+    pose proof (R_reset c s k (mkK02 (k2_live k) (k2_h1 k) (k2_h2 k) (k2_sent k) (k2_rec k) false (k2_ok k)) A B
+                  (if clean_now c s then [] else inm s) n false (conn s) Hcfg I HR Eo HB
+                  eq_refl eq_refl eq_refl eq_refl eq_refl eq_refl eq_refl) as H.
+    destruct H as [H1 H2 H3 H4 H5 H6 H7 H8 H9 H10 H11 H12 H13].
+    constructor; try assumption. cbn [sock]. discriminate.
+Qed.
+
+(* ---------------------------------------------------------------- connection lost *)
+Lemma step_connlost c s k : R c s k ->
+  R c (fst (step c s OConnLost)) (k02_op (pers c) k (snd (step c s OConnLost))).
+Proof.
+  intros HR. cbn [step]. destruct (sock s) eqn:Hs; cbn [fst snd]; rewrite quiet_op by reflexivity; [|exact HR].
+  apply (R_down c s); try reflexivity; [cbn; apply andb_false_r | cbn; tauto | exact HR].
+Qed.
